@@ -46,6 +46,9 @@ func baseShapes() []baseShape {
 		// segment, the first of them nearer to the start than the middle of the whole run
 		{"two-dents", poly(pp(0, 0, 6, 0, 6, 6, 0, 6, 0, 5, 4, 5, 3, 4, 0, 4, 0, 2, 3, 1))},
 		{"square-two-holes", poly(sq, pp(1, 1, 2, 1, 2, 2, 1, 2), pp(3, 3, 5, 3, 5, 5, 3, 5))},
+		// a concave hole: polygon material reaches into it as a spike with its tip at (3,2), so a shape can have
+		// the corners of its box strictly inside the hole and still cross the spike
+		{"square-notch-hole", poly(sq, pp(1, 1, 5, 1, 5, 5, 3, 2, 1, 5))},
 		{"zigzag-line", exact.Shape{K: exact.KLine, Line: pp(0, 0, 3, 3, 6, 0, 6, 6, 3, 3)}},
 		{"straight-line", exact.Shape{K: exact.KLine, Line: pp(0, 3, 2, 3, 4, 3, 6, 3)}},
 		{"rect", exact.Shape{K: exact.KRect, Min: exact.P{X: 2, Y: 4}, Max: exact.P{X: 10, Y: 8}}},
@@ -140,6 +143,31 @@ func enumPairs(tier string, yield func(pairCase) bool) {
 				}
 				if !emit(a, exact.Shape{K: exact.KPoint, Pt: p}) || !emit(a, exact.Shape{K: exact.KRect, Min: p, Max: p}) {
 					return
+				}
+			}
+		}
+	}
+	// a comb of 84 positions whose implicit closing segment is the long back of the spine, on the right where the
+	// rightward rays of interior points cross it: in an R-tree that segment is inserted after many short ones and
+	// overhangs the node it lands in on both sides.  Teeth are two units high, so odd y is strictly inside a
+	// tooth or a gap.
+	{
+		ring := []exact.P{{X: 40, Y: 0}}
+		for i := int64(0); i < 20; i++ {
+			ring = append(ring, exact.P{X: 0, Y: 4 * i}, exact.P{X: 0, Y: 4*i + 2}, exact.P{X: 38, Y: 4*i + 2}, exact.P{X: 38, Y: 4*i + 4})
+		}
+		ring = append(ring, exact.P{X: 0, Y: 80}, exact.P{X: 0, Y: 82}, exact.P{X: 40, Y: 82}) // the closing segment (40,82)-(40,0) is implicit
+		a := exact.Shape{K: exact.KPoly, Ext: ring}
+		if exact.ValidShape(&a) {
+			for _, enc := range enumEncs {
+				for y := int64(0); y <= 82; y++ {
+					for _, x := range []int64{0, 1, 20, 38, 39, 40, 41} {
+						q := exact.P{X: x, Y: y}
+						if !yield(pairCase{A: a, B: exact.Shape{K: exact.KPoint, Pt: q}, EA: enc, EB: enc}) ||
+							!yield(pairCase{A: a, B: exact.Shape{K: exact.KLine, Line: []exact.P{q, {X: x + 3, Y: y}}}, EA: enc, EB: enc}) {
+							return
+						}
+					}
 				}
 			}
 		}
@@ -296,4 +324,4 @@ func enumPairs(tier string, yield func(pairCase) bool) {
 	}
 }
 
-const enumPairsSpace = "18 base shapes, the concave ones also with x and y exchanged (convex, L, U, comb, notch, two dents, star, with 1-2 holes, collinear vertices, lines, rects) on the even 7x7 lattice x every point, every 2-point line and every rect of the 13x13 half-lattice and every triangle of a sub-lattice (thorough: a second encoding of each base, all triangles of the even lattice, all 3-point polylines), every boundary-to-boundary segment under every rotation of the exterior ring; for bases with holes every even-lattice rect as a 16-vertex ring and line; index none / R-tree / quadtree rotating"
+const enumPairsSpace = "19 base shapes, the concave ones also with x and y exchanged (convex, L, U, comb, notch, two dents, star, with 1-2 holes incl. a concave one, collinear vertices, lines, rects) on the even 7x7 lattice x every point, every 2-point line and every rect of the 13x13 half-lattice and every triangle of a sub-lattice (thorough: a second encoding of each base, all triangles of the even lattice, all 3-point polylines), every boundary-to-boundary segment under every rotation of the exterior ring; for bases with holes every even-lattice rect as a 16-vertex ring and line; index none / R-tree / quadtree rotating"
